@@ -222,11 +222,14 @@ static void case_function(Rng& rng, uint64_t index)
 static void case_in_units(Rng& rng, uint64_t index)
 {
 	double unit = rng.loguni(1e-30, 1e30);
+	// units whose numerical value is special: exactly 1 (GeV in natural units, dimensionless factors), -1, powers of two and ten
+	if(index % 6 == 5)
+		unit = rng.pick(std::vector<double> {1.0, 1.0, -1.0, 2.0, 0.5, 10.0, 1e-3, 1e9});
 	int rows = rng.irange(1, 5), cols = rng.irange(1, 5);
 	std::vector<std::vector<double>> q(rows, std::vector<double>(cols)), t(rows, std::vector<double>(cols));
 	std::vector<double> dims(cols);
 	for(auto& d : dims)
-		d = rng.loguni(1e-30, 1e30);
+		d = (index % 6 == 5 && rng.coin()) ? 1.0 : rng.loguni(1e-30, 1e30);
 	for(int i = 0; i < rows; i++)
 		for(int j = 0; j < cols; j++)
 			q[i][j] = rng.mag(1e-100, 1e100), t[i][j] = q[i][j] * unit;
